@@ -9,3 +9,5 @@ open Bec2Verif.Props.C09
 #print axioms published_keys_on_curve
 #print axioms offcurve_rejected
 #print axioms decrypt_validates_point
+#print axioms p256_ecc_laws
+#print axioms ecc_decrypt_shipped
